@@ -85,7 +85,7 @@ def check(ctx):
     ctx.count("cumulative_classes", n)
     ctx.floor("cumulative_classes", 4)
     lw = base.own_methods.get("_lower")
-    ok = lw is not None and bool(find("chunks = CumulativeBlockwise(self.frame, self.axis, self.skipna, self.chunk_operation)", lw)) and bool(find("chunks_last = TakeLast(chunks, self.skipna)", lw)) and any(Pat("CumulativeFinalize(chunks, chunks_last, self.aggregate_operation, self.neutral_element)").match(r.value) is not None for r in returns(lw))
+    ok = lw is not None and bool(find("chunks = CumulativeBlockwise(self.frame, self.axis, self.skipna, self.chunk_operation)", lw)) and bool(find("chunks_last = TakeLast(chunks, self.skipna)", lw)) and (all(Pat("CumulativeFinalize(chunks, chunks_last, self.aggregate_operation, self.neutral_element)").match(r.value) is not None for r in returns(lw)) and bool(returns(lw)))
     ctx.ob("ALG.scan-carry.lower", lw or base.node, "scan per partition; take each partition's last row; finalise with (aggregate_operation, neutral_element)", ok)
     fl = model.module(CUM).func("CumulativeFinalize._layer")
     u = unparse(fl)
